@@ -8,9 +8,9 @@ git -C /repo worktree add -q $WT HEAD || exit 9
 cp /repo/src/kio/_version.py $WT/src/kio/_version.py
 mkdir -p $WT/MUTATION; cp $SRC/demo.py $WT/MUTATION/
 cd $WT
-PYTHONPATH=$WT/src timeout 600 /venv/bin/python MUTATION/demo.py >/tmp/val_$NAME.clean.log 2>&1; clean=$?
+PYTHONPATH=$WT/src:$WT timeout 600 /venv/bin/python MUTATION/demo.py >/tmp/val_$NAME.clean.log 2>&1; clean=$?
 git apply $SRC/patch.diff || { echo "$NAME: patch does not apply"; git -C /repo worktree remove --force $WT; exit 9; }
-PYTHONPATH=$WT/src timeout 600 /venv/bin/python MUTATION/demo.py >/tmp/val_$NAME.mut.log 2>&1; mut=$?
+PYTHONPATH=$WT/src:$WT timeout 600 /venv/bin/python MUTATION/demo.py >/tmp/val_$NAME.mut.log 2>&1; mut=$?
 suite=$(PYTHONPATH=$WT/src /venv/bin/python -m pytest -q -p no:cacheprovider --timeout=300 -m "not java" --deselect tests/test_integration.py 2>&1 | tail -1)
 echo "$NAME: demo_without_change_exit=$clean demo_with_change_exit=$mut suite_with_change: $suite"
 cd /; git -C /repo worktree remove --force $WT
